@@ -159,6 +159,12 @@ def choose_stored_class(I, label="class"):
 
 def db_getattr(I, obj, cls_attr_owner, name, a):
     """Lazy creation of a column value on a stored object."""
+    if obj.meta.get('attached') is False and not obj.meta.get('added'):
+        # a freshly constructed (transient) mapped object: unset columns read as None / empty
+        if name in ('names', '_names', 'object_groups', 'app_specific_info'):
+            obj.fields[name] = []
+            return obj.fields[name]
+        return None
     kind = column_kind(name)
     if kind is None:
         raise OutOfFragment("stored-object attribute %s.%s has no column model" % (obj.cls.__name__, name))
@@ -277,7 +283,8 @@ class DbSession(object):
             o.meta['db'] = True
             o.meta['attached'] = True
             o.meta['added'] = True
-        I.path.event('db.add', id(o), getattr(getattr(o, 'cls', None), '__name__', '?'))
+        I.path.event('db.add', id(o), getattr(getattr(o, 'cls', None), '__name__', '?'), o)
+        args[0].meta.setdefault('pending', []).append(o)
         return None
 
     @model
@@ -289,6 +296,15 @@ class DbSession(object):
     def commit(I, args, kw):
         I.path.session.assumptions.add("SQLAlchemy session.commit()/flush()/add()/query.delete() do not raise")
         I.path.event('db.commit')
+        # AUTOINCREMENT (assumed): committing an added row assigns it a fresh identifier
+        sess = args[0]
+        for o in sess.meta.get('pending', []):
+            uid = fresh("new_uid")
+            I.path.assume(uid >= 1)
+            o.fields['unique_identifier'] = SInt(uid)
+            o.meta.setdefault('initial_columns', {})['unique_identifier'] = o.fields['unique_identifier']
+            I.path.event('db.assign_uid', id(o), uid)
+        sess.meta['pending'] = []
         return None
 
     @model
